@@ -30,7 +30,6 @@ var gsScope = []string{"pkg/obiiter", "pkg/obiformats", "pkg/obichunk", "pkg/obi
 
 // reviewed exceptions: key -> reason
 var gsExceptions = map[string]string{
-	"pkg/obichunk.IUniqueSequence:goroutine#1|err": "the error result of ISequenceSubChunk is stored in the enclosing function's err; that function always returns nil and err is never read once the goroutines run",
 }
 
 func gsProps(p *packages.Package) []string {
